@@ -22,6 +22,8 @@ struct Hist {
     compiled: bool,
     /// trace mode as the history left it (TRON typed; NEW and loads switch it off)
     tron: bool,
+    /// a get_listing() result the host kept from an earlier moment of the history
+    snapshot: Option<basic::mach::Listing>,
     labels: Vec<&'static str>,
 }
 
@@ -185,11 +187,15 @@ fn play_history(t: &mut Tape, h: &mut Hist, want_stop: bool) -> Result<(), (Stri
                 // a direct statement that is not an editing command must not touch the listing
                 let before = listing(&h.term);
                 let cmd = t
-                    .pick(&["PRINT 1", "A=5:B$=\"X\"", "PRINT A;B$", "FOR I=1 TO 2:NEXT", "DIM Z9(3)", "CLEAR", "X=X+1:PRINT X", "TROFF", "DEFINT Q", "READ A", "RESTORE", "SWAP A,B", "GOSUB 65000", "?\"é\"", "LIST 5-6", "IF 1 THEN PRINT 2"])
+                    .pick(&["PRINT 1", "A=5:B$=\"X\"", "PRINT A;B$", "FOR I=1 TO 2:NEXT", "DIM Z9(3)", "CLEAR", "X=X+1:PRINT X", "TROFF", "DEFINT Q", "READ A", "RESTORE", "SWAP A,B", "GOSUB 65000", "?\"é\"", "LIST 5-6", "IF 1 THEN PRINT 2", "IF 1 THEN DATA 77", "IF 0 THEN PRINT 1 ELSE DATA 78,79", "DATA 80"])
                     .to_string();
                 h.note(&format!("enter {:?}", cmd));
                 let mut o = h.opts(400);
                 h.term.line(&cmd, &mut o);
+                if t.chance(1, 3) {
+                    h.note("(the host keeps the result of get_listing())");
+                    h.snapshot = Some(h.term.rt.get_listing());
+                }
                 h.compiled = true;
                 if cmd == "TROFF" {
                     h.tron = false;
@@ -243,9 +249,21 @@ fn play_history(t: &mut Tape, h: &mut Hist, want_stop: bool) -> Result<(), (Stri
                     // a load in mid-history: the other program replaces the stored one
                     let before = listing(&h.term);
                     let mut l = basic::mach::Listing::default();
-                    let texts: Vec<String> = g2.prog.texts();
-                    for x in &texts {
-                        let _ = l.load_str(x);
+                    let mut texts: Vec<String> = g2.prog.texts();
+                    match t.below(4) {
+                        // an empty file
+                        0 => texts.clear(),
+                        // the listing as the host got it from get_listing() earlier (what SAVE hands
+                        // out), given back unchanged
+                        1 if h.snapshot.is_some() => {
+                            l = h.snapshot.clone().unwrap();
+                            texts = l.lines().map(|x| x.to_string()).collect();
+                        }
+                        _ => {
+                            for x in &texts {
+                                let _ = l.load_str(x);
+                            }
+                        }
                     }
                     h.note(&format!("set_listing({} lines):\n{}", texts.len(), texts.join("\n")));
                     h.term.rt.set_listing(l, false);
@@ -308,8 +326,11 @@ fn play_history(t: &mut Tape, h: &mut Hist, want_stop: bool) -> Result<(), (Stri
     Ok(())
 }
 
+/// Reads every DATA constant of the stored program from the start (until OUT OF DATA).
+const DATA_PROBE: &str = "RESTORE:FOR Z9=1 TO 60:READ Z8:PRINT Z8;:NEXT";
+
 fn new_hist() -> Hist {
-    Hist { term: Term::new(), script: String::new(), replies: vec![], stopped_run: false, effective_edit_after_stop: false, effective_edit_after_compile: false, compiled: false, tron: false, labels: vec![] }
+    Hist { term: Term::new(), script: String::new(), replies: vec![], stopped_run: false, effective_edit_after_stop: false, effective_edit_after_compile: false, compiled: false, tron: false, snapshot: None, labels: vec![] }
 }
 
 // ------------------------------------------------------------------ A: RUN equals RUN in a fresh interpreter
@@ -370,7 +391,7 @@ fn check_run_fresh(t: &mut Tape, ctx: &Ctx) -> Outcome {
     let end_h = h.term.line(&cmd, &mut o);
     let ev_h = h.term.take();
     let mut probes_h = String::new();
-    for p in ["PRINT A;B;C;A%;B%;A#;X;Y%;Z#", "PRINT A$;\"|\";B$;\"|\";S$;I;J%;K;F9%"] {
+    for p in ["PRINT A;B;C;A%;B%;A#;X;Y%;Z#", "PRINT A$;\"|\";B$;\"|\";S$;I;J%;K;F9%", DATA_PROBE] {
         h.term.line(p, &mut o);
         probes_h.push_str(&flat(&h.term.take()));
     }
@@ -389,7 +410,7 @@ fn check_run_fresh(t: &mut Tape, ctx: &Ctx) -> Outcome {
     let end_f = f.line(&cmd, &mut of);
     let ev_f = f.take();
     let mut probes_f = String::new();
-    for p in ["PRINT A;B;C;A%;B%;A#;X;Y%;Z#", "PRINT A$;\"|\";B$;\"|\";S$;I;J%;K;F9%"] {
+    for p in ["PRINT A;B;C;A%;B%;A#;X;Y%;Z#", "PRINT A$;\"|\";B$;\"|\";S$;I;J%;K;F9%", DATA_PROBE] {
         f.line(p, &mut of);
         probes_f.push_str(&flat(&f.take()));
     }
